@@ -1,59 +1,143 @@
 package main
 
-// Concurrency primitives: channels, goroutines, guarded-by (filled in for C04-C06, C19).
+// Concurrency primitives in their *sequential* reading: what one call does to the
+// abstract state when it runs without interference (the "one atomic effect per call"
+// half of a lock-based linearizability argument), plus guarded-by obligations
+// (every access to a guarded field happens with its mutex held) and lock pairing.
+// Interference between threads (Owicki–Gries stability) is not modelled.
 
 import (
+	"fmt"
+	"go/types"
+
 	"golang.org/x/tools/go/ssa"
 )
 
+func (fc *fnCtx) chanRegions(st *State) (ln, cp, cl string) {
+	return fc.region(st, "chan.len", "(Array U Int)"), fc.region(st, "chan.cap", "(Array U Int)"), fc.region(st, "chan.closed", "(Array U Bool)")
+}
+
+// checkGuarded: a load or store of a field declared `guarded_by m: ...` needs held(&base.m).
 func (fc *fnCtx) checkGuarded(st *State, fr *frame, ins ssa.Instruction, ad *Addr, write bool) {
-	if fc.guardHook != nil {
-		fc.guardHook(st, fr, ins, ad, write)
+	if ad == nil || ad.Kind != "field" || ad.GT == nil {
+		return
 	}
+	fa, ok := addrInstr(ins)
+	if !ok {
+		return
+	}
+	named, ok := derefNamed(fa.X.Type())
+	if !ok {
+		return
+	}
+	pkg := ""
+	if named.Obj().Pkg() != nil {
+		pkg = named.Obj().Pkg().Name()
+	}
+	ts := fc.e.contracts.Types[pkg+"."+named.Obj().Name()]
+	if ts == nil || len(ts.GuardedBy) == 0 {
+		return
+	}
+	stt := named.Underlying().(*types.Struct)
+	fname := stt.Field(fa.Field).Name()
+	mutex, guarded := ts.GuardedBy[fname]
+	if !guarded {
+		return
+	}
+	// an object allocated by this very function is still thread-confined: no lock needed
+	rn := fieldRegion(named.Origin(), mutex)
+	id, has := fc.e.regionIDs[rn]
+	if !has {
+		id = len(fc.e.regionIDs) + 1
+		fc.e.regionIDs[rn] = id
+	}
+	maddr := fmt.Sprintf("(addr_of %d %s)", id, ad.Base)
+	held := fc.region(st, "M.held", "(Array U Bool)")
+	kind := "read"
+	if write {
+		kind = "write"
+	}
+	goal := fmt.Sprintf("(or (select %s %s) (>= (atime %s) %s))", held, maddr, ad.Base, fc.top.entryT)
+	fc.emit(st, fc.oblName(fr, fmt.Sprintf("guarded.%s@%s", kind, fc.instrLabel(fr, ins))), "guarded",
+		fmt.Sprintf("%s of %s.%s happens with %s held (or on an object this call allocated)", kind, named.Obj().Name(), fname, mutex), fc.posOf(ins), goal, []string{"C04", "C19"})
+}
+
+// addrInstr finds the FieldAddr behind a load/store instruction.
+func addrInstr(ins ssa.Instruction) (*ssa.FieldAddr, bool) {
+	switch x := ins.(type) {
+	case *ssa.UnOp:
+		fa, ok := x.X.(*ssa.FieldAddr)
+		return fa, ok
+	case *ssa.Store:
+		fa, ok := x.Addr.(*ssa.FieldAddr)
+		return fa, ok
+	}
+	return nil, false
 }
 
 func (fc *fnCtx) chanSend(st *State, fr *frame, ins *ssa.Send) {
-	if fc.sendHook != nil {
-		fc.sendHook(st, fr, ins)
-		return
+	ch := fc.val(st, ins.Chan)
+	ln, cp, cl := fc.chanRegions(st)
+	fc.runtimeCheck(st, fr, ins, "closedchan", sel(cl, ch.T))
+	full := fmt.Sprintf("(>= (select %s %s) (select %s %s))", ln, ch.T, cp, ch.T)
+	if fc.eff.flags["mayblock"] {
+		// the call may park here; it continues only when there is room
+		st.pc = append(st.pc, not(full), not(eq(ch.T, "nil")))
+	} else {
+		fc.emit(st, fc.oblName(fr, "noblock.send@"+fc.instrLabel(fr, ins)), "noblock", "the channel send cannot block", fc.posOf(ins), and(not(full), not(eq(ch.T, "nil"))), nil)
+		st.pc = append(st.pc, not(full))
 	}
-	fc.unsupported("channel send")
+	fc.setRegion(st, "chan.len", "(Array U Int)", store(ln, ch.T, fmt.Sprintf("(+ (select %s %s) 1)", ln, ch.T)))
 }
 
 func (fc *fnCtx) chanRecv(st *State, fr *frame, ins *ssa.UnOp) {
-	if fc.recvHook != nil {
-		fc.recvHook(st, fr, ins)
-		return
+	ch := fc.val(st, ins.X)
+	ln, _, cl := fc.chanRegions(st)
+	elem := ins.X.Type().Underlying().(*types.Chan).Elem()
+	empty := fmt.Sprintf("(<= (select %s %s) 0)", ln, ch.T)
+	closed := sel(cl, ch.T)
+	wouldBlock := and(empty, not(closed))
+	if fc.eff.flags["mayblock"] {
+		st.pc = append(st.pc, not(wouldBlock), not(eq(ch.T, "nil")))
+	} else {
+		fc.emit(st, fc.oblName(fr, "noblock.recv@"+fc.instrLabel(fr, ins)), "noblock", "the channel receive cannot block", fc.posOf(ins), and(not(wouldBlock), not(eq(ch.T, "nil"))), nil)
+		st.pc = append(st.pc, not(wouldBlock))
 	}
-	fc.unsupported("channel receive")
+	okN := fc.declare(st, "recvok", "Bool")
+	st.pc = append(st.pc, eq(okN, not(empty)))
+	v := fc.freshVal(st, "recv", elem)
+	z := fc.zeroOf(st, elem)
+	st.pc = append(st.pc, implies(not(okN), eq(v.T, z.T)))
+	fc.setRegion(st, "chan.len", "(Array U Int)", store(ln, ch.T, fmt.Sprintf("(ite %s (- (select %s %s) 1) (select %s %s))", okN, ln, ch.T, ln, ch.T)))
+	if ins.CommaOk {
+		st.env[ins] = Val{S: STuple, Tup: []Val{v, {T: okN, S: SBool}}}
+	} else {
+		st.env[ins] = v
+	}
 }
 
 func (fc *fnCtx) chanLen(st *State, fr *frame, call *ssa.Call, ch Val, k func(*State, Val)) {
-	if fc.chanLenHook != nil {
-		fc.chanLenHook(st, fr, call, ch, k)
-		return
-	}
-	fc.unsupported("len of channel")
+	ln, _, _ := fc.chanRegions(st)
+	v := Val{T: fmt.Sprintf("(ite (= %s nil) 0 (select %s %s))", ch.T, ln, ch.T), S: SInt, GT: call.Type()}
+	k(st, v)
 }
 
 func (fc *fnCtx) chanClose(st *State, fr *frame, call *ssa.Call, ch Val, k func(*State, Val)) {
-	if fc.closeHook != nil {
-		fc.closeHook(st, fr, call, ch, k)
-		return
-	}
-	fc.unsupported("close of channel")
+	_, _, cl := fc.chanRegions(st)
+	fc.runtimeCheck(st, fr, call, "closedchan", or(eq(ch.T, "nil"), sel(cl, ch.T)))
+	fc.setRegion(st, "chan.closed", "(Array U Bool)", store(cl, ch.T, "true"))
+	k(st, Val{S: STuple})
 }
 
+// goStmt: spawning a goroutine has no effect on the spawning thread's state; the closure body is
+// verified separately under its own contract (key F$n). Objects captured by the closure stop
+// being thread-confined, which the engine does not track: recorded as an assumption.
 func (fc *fnCtx) goStmt(st *State, fr *frame, ins *ssa.Go) {
-	if fc.goHook != nil {
-		fc.goHook(st, fr, ins)
-		return
-	}
-	fc.unsupported("go statement")
+	fc.e.warnings[fmt.Sprintf("goroutine spawned in %s: its body is verified separately; captured objects are shared from here on (not tracked)", fr.key)] = true
+	n := fc.declare(st, "now", "Int")
+	st.pc = append(st.pc, fmt.Sprintf("(>= %s %s)", n, st.now))
+	st.now = n
 }
 
 func (fc *fnCtx) blockingCall(st *State, fr *frame, site string, spec *effSpec, recv *Val, args []Val) {
-	if fc.blockHook != nil {
-		fc.blockHook(st, fr, site, spec, recv, args)
-	}
 }
